@@ -5,7 +5,7 @@ use crate::gen::dsym3::*;
 use crate::model::*;
 use crate::oracle::fg::own_fundamental_group;
 use crate::oracle::orb2;
-use crate::oracle::snf::try_abelianization;
+use crate::oracle::snf::{try_abelianization, try_abelianization_fast};
 use crate::props::c09::corpus_lit;
 use crate::runner::*;
 use crate::util::*;
@@ -25,11 +25,23 @@ pub struct TorCase {
     pub dual: bool,
     /// the symbol is known to be euclidean independently of the crate ("" = unknown)
     pub known: String,
+    /// "" = known euclidean whenever `known` is non-empty (verdict must be yes); "weak" = known to
+    /// be euclidean, verdict must not be no; "notflat" = known not to be euclidean, verdict must not be yes
+    pub kind: String,
+}
+
+impl TorCase {
+    pub fn known_euclidean(&self) -> bool {
+        !self.known.is_empty() && self.kind != "notflat"
+    }
+    pub fn known_not_euclidean(&self) -> bool {
+        !self.known.is_empty() && self.kind == "notflat"
+    }
 }
 
 impl Case for TorCase {
     fn encode(&self) -> Value {
-        json!({"symbol": self.ds.encode(), "swaps": self.swaps.iter().map(|s| json!([s.0, s.1])).collect::<Vec<_>>(), "dual": self.dual, "known_euclidean": self.known})
+        json!({"symbol": self.ds.encode(), "swaps": self.swaps.iter().map(|s| json!([s.0, s.1])).collect::<Vec<_>>(), "dual": self.dual, "known_euclidean": self.known, "known_kind": self.kind})
     }
     fn decode(v: &Value) -> Option<Self> {
         Some(TorCase {
@@ -37,6 +49,7 @@ impl Case for TorCase {
             swaps: v.get("swaps")?.as_array()?.iter().filter_map(|p| Some((p.get(0)?.as_u64()? as u32, p.get(1)?.as_u64()? as u32))).collect(),
             dual: v.get("dual")?.as_bool()?,
             known: v.get("known_euclidean").and_then(|k| k.as_str()).unwrap_or("").to_string(),
+            kind: v.get("known_kind").and_then(|k| k.as_str()).unwrap_or("").to_string(),
         })
     }
     fn weight(&self) -> usize {
@@ -58,7 +71,18 @@ pub fn branch_free(y: &DS) -> bool {
 
 pub fn h1(y: &DS) -> Option<Vec<BigInt>> {
     let fg = own_fundamental_group(y);
-    try_abelianization(fg.pres.nr_gens, &fg.pres.rels, 8192)
+    if fg.pres.nr_gens <= 24 {
+        return try_abelianization(fg.pres.nr_gens, &fg.pres.rels, 8192);
+    }
+    let fast = try_abelianization_fast(fg.pres.nr_gens, &fg.pres.rels, 8192);
+    if fg.pres.nr_gens <= 60 {
+        // the plain route is affordable: the two own routes must agree
+        let plain = try_abelianization(fg.pres.nr_gens, &fg.pres.rels, 8192);
+        if let (Some(a), Some(b)) = (&fast, &plain) {
+            assert!(a == b, "harness: the two abelianisation routes of the oracle disagree");
+        }
+    }
+    fast
 }
 
 fn zeros(n: usize) -> Vec<BigInt> {
@@ -70,15 +94,15 @@ fn zeros(n: usize) -> Vec<BigInt> {
 
 fn tor2(x: &DS, simple: bool) -> Result<DS, String> {
     let y = if simple { DS::from_dsym(&toroidal_cover(&x.to_simple())) } else { DS::from_dsym(&toroidal_cover(&x.to_partial())) };
-    ensure!(y.ops_are_involutions() && y.is_connected(), "toroidal_cover({}) is not a connected complete symbol", x.text());
-    check_projection(x, &y).map_err(|e| format!("toroidal_cover({}) is not a covering of the input: {}", x.text(), e))?;
-    ensure!(is_oriented(&y), "toroidal_cover({}) is not oriented", x.text());
-    ensure!(branch_free(&y), "toroidal_cover({}) still has branching", x.text());
+    ensure!(y.ops_are_involutions() && y.is_connected(), "toroidal_cover({}) is not a connected complete symbol", x.short());
+    check_projection(x, &y).map_err(|e| format!("toroidal_cover({}) is not a covering of the input: {}", x.short(), e))?;
+    ensure!(is_oriented(&y), "toroidal_cover({}) is not oriented", x.short());
+    ensure!(branch_free(&y), "toroidal_cover({}) still has branching", x.short());
     let fg = fundamental_group(&y.to_partial());
-    ensure!(fg.cones.is_empty(), "the fundamental group of toroidal_cover({}) has cones {:?}", x.text(), fg.cones);
-    ensure!(orb2::curvature(&y).is_zero(), "toroidal_cover({}) has curvature {}", x.text(), orb2::curvature(&y));
+    ensure!(fg.cones.is_empty(), "the fundamental group of toroidal_cover({}) has cones {:?}", x.short(), fg.cones);
+    ensure!(orb2::curvature(&y).is_zero(), "toroidal_cover({}) has curvature {}", x.short(), orb2::curvature(&y));
     let h = h1(&y).ok_or("harness: abelianisation oracle gave up")?;
-    ensure!(h == zeros(2), "the fundamental group of toroidal_cover({}) abelianises to {:?}, not Z^2", x.text(), h);
+    ensure!(h == zeros(2), "the fundamental group of toroidal_cover({}) abelianises to {:?}, not Z^2", x.short(), h);
     Ok(y)
 }
 
@@ -120,14 +144,14 @@ pub fn ptc(x: &DS, simple: bool) -> Result<Option<(usize, DS)>, String> {
         None => return Ok(None),
         Some(y) => DS::from_dsym(&y),
     };
-    ensure!(y.ops_are_involutions() && y.is_connected(), "pseudo_toroidal_cover({}) is not a connected complete symbol", x.text());
-    check_projection(x, &y).map_err(|e| format!("pseudo_toroidal_cover({}) is not a covering of the input: {}", x.text(), e))?;
-    ensure!(is_oriented(&y), "pseudo_toroidal_cover({}) is not oriented", x.text());
-    ensure!(branch_free(&y), "pseudo_toroidal_cover({}) still has branching", x.text());
+    ensure!(y.ops_are_involutions() && y.is_connected(), "pseudo_toroidal_cover({}) is not a connected complete symbol", x.short());
+    check_projection(x, &y).map_err(|e| format!("pseudo_toroidal_cover({}) is not a covering of the input: {}", x.short(), e))?;
+    ensure!(is_oriented(&y), "pseudo_toroidal_cover({}) is not oriented", x.short());
+    ensure!(branch_free(&y), "pseudo_toroidal_cover({}) still has branching", x.short());
     let h = h1(&y).ok_or("harness: abelianisation oracle gave up")?;
-    ensure!(h == zeros(3), "the fundamental group of pseudo_toroidal_cover({}) abelianises to {:?}, not Z^3", x.text(), h);
+    ensure!(h == zeros(3), "the fundamental group of pseudo_toroidal_cover({}) abelianises to {:?}, not Z^3", x.short(), h);
     let osize = if is_oriented(x) { x.size } else { 2 * x.size };
-    ensure!(y.size % osize == 0 && POINT_GROUP_ORDERS.contains(&(y.size / osize)), "pseudo_toroidal_cover({}) has {} chambers = {} x the oriented cover, not the order of one of the admissible point groups", x.text(), y.size, y.size as f64 / osize as f64);
+    ensure!(y.size % osize == 0 && POINT_GROUP_ORDERS.contains(&(y.size / osize)), "pseudo_toroidal_cover({}) has {} chambers = {} x the oriented cover, not the order of one of the admissible point groups", x.short(), y.size, y.size as f64 / osize as f64);
     Ok(Some((y.size / osize, y)))
 }
 
@@ -144,10 +168,10 @@ fn check_ptc(c: &TorCase, obs: &mut Obs) -> Result<(), String> {
     ensure!(
         a.as_ref().map(|t| t.0) == b.as_ref().map(|t| t.0),
         "pseudo_toroidal_cover depends on the numbering / dualisation: {:?} sheets for {}, {:?} sheets for {}",
-        a.as_ref().map(|t| t.0), x.text(), b.as_ref().map(|t| t.0), variant.text()
+        a.as_ref().map(|t| t.0), x.short(), b.as_ref().map(|t| t.0), variant.short()
     );
-    if !c.known.is_empty() {
-        ensure!(a.is_some(), "no pseudo-toroidal cover is found for {}, which is euclidean ({})", x.text(), c.known);
+    if c.known_euclidean() {
+        ensure!(a.is_some(), "no pseudo-toroidal cover is found for {}, which is euclidean ({})", x.short(), c.known);
         obs.class("known-euclidean corpus");
     }
     obs.nontrivial(a.as_ref().map_or(false, |t| t.0 >= 2));
@@ -193,32 +217,41 @@ pub fn run(ctx: &mut Ctx) {
     ctx.rule = "2D: every euclidean symbol (own classification of all assignments with K = 0 and degrees >= 3 on all enumerated D-sets) with fixed and proptest-generated renumberings and duals; 3D: all symbols with good spherical tiles and vertex figures and branching in {1,2,3,4,6} over all enumerated 3D D-sets up to a size bound (own backtracking with own curvature / orbifold oracle), each with a renumbered or dual variant, plus the literature corpus and products (euclidean 2D symbol) x (line tiling)".into();
     ctx.assume("the crystallographic restriction and complete euclidean input are part of the generators (the routines assert them)");
     ctx.assume("products of plane groups with line groups are space groups: product symbols are euclidean independently of the crate");
+    ctx.assume("the quotient of the cubic tiling of E^3 by a group generated by lattice translations and signed coordinate permutations with lattice shifts is a euclidean symbol by definition");
+    ctx.assume("a closed manifold homeomorphic to T^3 (T^3 # S^3 built by tile surgery) is euclidean; S^2 x S^1, RP^3 and connected sums of them are not");
     crate::props::run_regressions(ctx, "C15");
 
     ctx.layer("exhaustive");
     let eu = euclidean_2d_up_to(t.pick(8, 9));
-    let cases2: Vec<TorCase> = eu.iter().enumerate().map(|(k, s)| TorCase { ds: s.clone(), swaps: fixed_swaps(s.size, k), dual: k % 2 == 0, known: String::new() }).collect();
+    let cases2: Vec<TorCase> = eu.iter().enumerate().map(|(k, s)| TorCase { ds: s.clone(), swaps: fixed_swaps(s.size, k), dual: k % 2 == 0, known: String::new(), kind: String::new() }).collect();
     let n2 = cases2.len();
     ctx.run_par(&SUB_TOR2, cases2, Some(&format!("all {} euclidean 2D symbols (degrees >= 3) with <= {} chambers, one per isomorphism class, each with a fixed renumbering / dual variant", n2, t.pick(8, 9))));
 
     let (pool, pool_text) = symbol_pool(t.pick(3, 4), t.pick(4, 5), t.pick(10, 10));
     let mut cases3: Vec<TorCase> = vec![];
     for (k, s) in pool.into_iter().enumerate() {
-        cases3.push(TorCase { swaps: fixed_swaps(s.size, k), dual: k % 2 == 1, ds: s, known: String::new() });
+        cases3.push(TorCase { swaps: fixed_swaps(s.size, k), dual: k % 2 == 1, ds: s, known: String::new(), kind: String::new() });
     }
     for (k, s) in corpus_lit().into_iter().enumerate() {
-        cases3.push(TorCase { swaps: fixed_swaps(s.size, k), dual: k % 2 == 1, ds: s, known: "literature corpus".into() });
+        cases3.push(TorCase { swaps: fixed_swaps(s.size, k), dual: k % 2 == 1, ds: s, known: "literature corpus".into(), kind: String::new() });
     }
     for (k, (s, why)) in products(t.pick(4, 6)).into_iter().enumerate() {
-        cases3.push(TorCase { swaps: fixed_swaps(s.size, k), dual: k % 2 == 1, ds: s, known: why });
+        cases3.push(TorCase { swaps: fixed_swaps(s.size, k), dual: k % 2 == 1, ds: s, known: why, kind: String::new() });
     }
+    let (ncub, nman) = (t.pick(150, 3000), t.pick(2, 8));
+    cases3.extend(crate::props::c17::cubic_cases(ncub, t.pick(3, 4)));
+    cases3.extend(crate::props::c17::manifold_cases(nman, true));
     let n3 = cases3.len();
-    ctx.run_par(&SUB_PTC, cases3.clone(), Some(&format!("{} cases: 3D symbols with spherical tiles and vertex figures and branching in {{1,2,3,4,6}}: {}; the 20 literature symbols; all products of euclidean 2D symbols with <= {} chambers with the 4 line tilings", n3, pool_text, t.pick(4, 6))));
+    ctx.run_par(&SUB_PTC, cases3.clone(), Some(&format!("{} cases: 3D symbols with spherical tiles and vertex figures and branching in {{1,2,3,4,6}}: {}; the 20 literature symbols; all products of euclidean 2D symbols with <= {} chambers with the 4 line tilings; {} quotients of the cubic tiling by space groups; cubical 3-manifolds of known topology with {} gluing choices", n3, pool_text, t.pick(4, 6), ncub, nman)));
 
     ctx.layer("random");
     let pool2 = Arc::new(eu);
     let sw = || prop::collection::vec((any::<u32>(), any::<u32>()), 0..8);
-    ctx.run_prop(&SUB_TOR2, move || { let p = pool2.clone(); (any::<u32>(), sw(), any::<bool>()).prop_map(move |(k, swaps, dual)| TorCase { ds: p[pick_index(k, p.len())].clone(), swaps, dual, known: String::new() }) }, t.pick(1_500, 30_000));
+    ctx.run_prop(&SUB_TOR2, move || { let p = pool2.clone(); (any::<u32>(), sw(), any::<bool>()).prop_map(move |(k, swaps, dual)| TorCase { ds: p[pick_index(k, p.len())].clone(), swaps, dual, known: String::new(), kind: String::new() }) }, t.pick(1_500, 30_000));
+    ctx.layer("random-cubic-quotients");
+    let max_n = t.pick(3, 4);
+    ctx.run_prop(&SUB_PTC, move || crate::props::c17::cubic_strategy(max_n), t.pick(300, 6_000));
+    ctx.layer("random");
     let pool3 = Arc::new(cases3);
     ctx.run_prop(&SUB_PTC, move || { let p = pool3.clone(); (any::<u32>(), sw(), any::<bool>()).prop_map(move |(k, swaps, dual)| { let mut c = p[pick_index(k, p.len())].clone(); c.swaps = swaps; c.dual = dual; c }) }, t.pick(1_500, 30_000));
 }
